@@ -107,6 +107,7 @@ Fixpoint sexp_val (fuel : nat) (x : sexp) : option gval :=
         else if atom_is t "strver" then option_map (fun b => GStringer (Some b)) (atom_bytes v)
         else if atom_is t "strverptr" then option_map (fun b => GStringer (Some b)) (atom_bytes v)
         else if atom_is t "strsame" then option_map (fun b => GStringer (Some b)) (atom_bytes v)
+        else if atom_is t "strslow" then option_map (fun b => GStringer (Some b)) (atom_bytes v)
         else if atom_is t "strkeep" then option_map (fun b => GStringer (Some b)) (atom_bytes v)
         else if atom_is t "strbig" then option_map (fun b => GStringer (Some b)) (atom_bytes v)
         else if atom_is t "strtm" then option_map (fun b => GStringer (Some b)) (atom_bytes v)
